@@ -26,16 +26,24 @@ static bool valid_name(const std::string& s)
     for (char c : s) if (c == ';') return false;
     return true;
 }
+// (schema 1.x has no uniqueness constraint on sibling names and the statement does not demand one: duplicates are legal there)
 static bool name_taken(forest& f, int parent, const std::string& nm, int except = -1)
 {
+    if (verif_param("gen") == 1) return false;
     for (int k : f.kids(parent)) if (k != except && same_s(f.n[k].name, nm)) return true;
     return false;
 }
 #define CK(c, msg) verif_assert((c), msg)
 template <class L> static std::vector<int64_t> ids_of(const L& l) { std::vector<int64_t> r; for (auto& c : l) r.push_back(c.id()); return r; }
+// schema 2.x lists siblings in a total order (C09); schema 1.x has no sibling order: there the listing is compared as a set
 static bool seq_eq(const std::vector<int64_t>& a, const std::vector<int>& m, const forest& f)
 {
     if (a.size() != m.size()) return false;
+    if (verif_param("gen") == 1)
+    {
+        for (size_t i = 0; i < m.size(); ++i) { int cnt = 0; for (auto id : a) cnt += id == f.n[m[i]].id; if (cnt != 1) return false; }
+        return true;
+    }
     for (size_t i = 0; i < a.size(); ++i) if (a[i] != f.n[m[i]].id) return false;
     return true;
 }
@@ -57,7 +65,8 @@ static void check_all(djinterop::database& db, forest& f, std::vector<djinterop:
         if (!nd.alive)
         {
             bool reused = false; for (auto& o : f.n) reused |= o.alive && o.id == nd.id;
-            CK(!reused, "C07: the id of a removed crate was given to a new crate (ids collide; the stale handle is valid again)");
+            if (verif_param("gen") == 1) CK(!reused, "C07: schema 1.x: the id of a removed crate was given to a new crate (ids collide; the stale handle is valid again)");
+            else CK(!reused, "C07: the id of a removed crate was given to a new crate (ids collide; the stale handle is valid again)");
             CK(!c.is_valid(), "C07: handle of a removed crate reports is_valid()");
             CK(!db.crate_by_id(nd.id).has_value(), "C07: crate_by_id returns a removed crate");
             continue;
@@ -76,13 +85,21 @@ static void check_all(djinterop::database& db, forest& f, std::vector<djinterop:
         auto byid = db.crate_by_id(nd.id);
         CK(byid.has_value() && byid->id() == nd.id, "C07: crate_by_id does not find a live crate");
         auto byname = nd.parent == -1 ? db.root_crate_by_name(nd.name) : h[nd.parent].sub_crate_by_name(nd.name);
-        CK(byname.has_value() && byname->id() == nd.id, "C07: lookup by parent and name does not find the crate");
+        bool found = false;      // (with duplicate sibling names - 1.x only - any of the namesakes)
+        if (byname.has_value()) for (auto& o : f.n) found |= o.alive && o.id == byname->id() && o.parent == nd.parent && same_s(o.name, nd.name);
+        CK(found && (verif_param("gen") == 1 || byname->id() == nd.id), "C07: lookup by parent and name does not find the crate");
     }
 }
 // the sibling list `obs` (ids observed after the operation) must be `old` with `x` inserted exactly once (anywhere, or right after `after` when given)
 static bool inserted_ok(const std::vector<int64_t>& obs, const std::vector<int>& old, int x, int after, forest& f, std::vector<int>& out)
 {
     if (obs.size() != old.size() + 1) return false;
+    if (verif_param("gen") == 1)
+    {   // unordered generation: the old siblings and the new one each exactly once
+        out = old; out.push_back(x);
+        for (int k : out) { int cnt = 0; for (auto id : obs) cnt += id == f.n[k].id; if (cnt != 1) return false; }
+        return true;
+    }
     out.clear(); size_t j = 0; bool seen = false;
     for (size_t i = 0; i < obs.size(); ++i)
     {
@@ -116,16 +133,17 @@ static void apply(djinterop::database& db, forest& f, std::vector<djinterop::cra
     bool threw = false; std::optional<djinterop::crate> made;
     auto alive = [&](int i) { return i >= 0 && i < N && f.n[i].alive; };
     bool legal = true; int parent = -1, after = -1;
+    const bool g1 = verif_param("gen") == 1;      // schema 1.x has no sibling order: the "after" argument of create_*_after is documented as not (yet) honoured there
     try
     {
         switch (o.kind)
         {
             case 0: legal = valid_name(o.name) && !name_taken(f, -1, o.name); made = db.create_root_crate(o.name); break;
-            case 1: after = o.a; legal = valid_name(o.name) && !name_taken(f, -1, o.name) && alive(after) && f.n[after].parent == -1;
-                    made = db.create_root_crate_after(o.name, h[after]); break;
+            case 1: after = o.a; legal = valid_name(o.name) && !name_taken(f, -1, o.name) && (g1 || (alive(after) && f.n[after].parent == -1));
+                    made = db.create_root_crate_after(o.name, h[after]); if (g1) after = -1; break;
             case 2: parent = o.a; legal = alive(parent) && valid_name(o.name) && !name_taken(f, parent, o.name); made = h[parent].create_sub_crate(o.name); break;
-            case 3: parent = o.a; after = o.b; legal = alive(parent) && alive(after) && f.n[after].parent == parent && valid_name(o.name) && !name_taken(f, parent, o.name);
-                    made = h[parent].create_sub_crate_after(o.name, h[after]); break;
+            case 3: parent = o.a; after = o.b; legal = alive(parent) && (g1 || (alive(after) && f.n[after].parent == parent)) && valid_name(o.name) && !name_taken(f, parent, o.name);
+                    made = h[parent].create_sub_crate_after(o.name, h[after]); if (g1) after = -1; break;
             case 4: legal = alive(o.a) && valid_name(o.name) && !name_taken(f, f.n[o.a].parent, o.name, o.a); h[o.a].set_name(o.name); break;
             case 5: parent = o.b;    // -1 = make it a root crate
                     legal = alive(o.a) && (parent == -1 || (alive(parent) && !f.in_subtree(parent, o.a))) && (parent == f.n[o.a].parent || !name_taken(f, parent, f.n[o.a].name));
@@ -136,8 +154,19 @@ static void apply(djinterop::database& db, forest& f, std::vector<djinterop::cra
     }
     catch (const std::exception&) { threw = true; }
     verif_note("op", (uint64_t)o.kind); verif_note("legal", legal); verif_note("threw", threw);
-    if (!legal) CK(threw, "C07: an operation the statement requires to be rejected (invalid name, cycle, removed or foreign operand, duplicate sibling name) was accepted");
-    else CK(!threw, "C07: a legal crate operation was rejected");
+    // an operation on a removed crate may throw or silently do nothing (the statement only demands that it has no effect: checked below against the unchanged reference)
+    bool dead_operand = false;
+    switch (o.kind)
+    {
+        case 1: dead_operand = !g1 && !alive(o.a); break;
+        case 2: dead_operand = !alive(o.a); break;
+        case 3: dead_operand = !alive(o.a) || (!g1 && !alive(o.b)); break;
+        case 4: dead_operand = !alive(o.a); break;
+        case 5: dead_operand = !alive(o.a) || (o.b != -1 && !alive(o.b)); break;
+        default: break;
+    }
+    if (!legal && !dead_operand) CK(threw, "C07: an operation the statement requires to be rejected (invalid name, cycle, foreign sibling, duplicate sibling name) was accepted");
+    if (legal) CK(!threw, "C07: a legal crate operation was rejected");
     if (!threw && legal)
     {
         switch (o.kind)
